@@ -188,7 +188,7 @@ def route_events(cls_name, G, sol, *, mode="edge", starts=(), ends=(), k=None, a
             for x in vals:
                 if not isinstance(x, (int, float)) or isinstance(x, bool) or (isinstance(x, float) and math.isnan(x)):
                     ev.append((f"C01/non-numeric-{key}/{cls_name}", f"{key} entry {x!r} {tag}")); break
-                if x < (0 if isinstance(x, int) else -1e-9):
+                if x < (0 if (isinstance(x, int) or key != "scaled_slacks") else -1e-9):      # ('non-negative' is meant literally for weights and slacks; scaled slacks are derived values)
                     ev.append((f"C01/negative-{key}/{cls_name}", f"{key} entry {x!r} {tag}")); break
     if k is not None:
         # with solution_weights_superset the unused layers are handed out as empty routes; only real routes count against k
